@@ -9,7 +9,7 @@ LEAN_MODULES = ['XmlDiffModel.Props.C01', 'XmlDiffModel.Props.C05', 'XmlDiffMode
 SOURCES = ['diff.Differ.diff', 'diff.Differ.update_node_attr', 'diff.Differ.find_pos', 'patch.Patcher']
 RULE = 'Differ cluster: the real script is replayed action by action under the strict (documented) semantics in the Lean model: attribute preconditions, positions within 0..childCount, no move into own subtree, delete only childless nodes; result compared with R. U2 compares the shipped patcher with its model on the same scripts. Non-trivial = script has >= 2 action types or a move.'
 ASSUMPTIONS = [
-    "documents of the namespace-free C01 domain (elements, attributes, text, tails, comments); namespaced documents are exercised by the oracle streams only",
+    "documents of the C01 domain; namespaced documents (stream nsm) are compared with the model too, the step name of a Clark-notation tag being the prefix the working copy uses for its URI; only the namespace prologue (InsertNamespace / DeleteNamespace, prefix registration) is outside the model and exercised by the oracle stream ns",
     "similarity values (difflib.SequenceMatcher, sqrt) are an oracle recorded from the real node_ratio for every comparable pair",
 ]
-_cluster.make(sys.modules[__name__], 'C05', {'U2','U5','E2E'}, [('main',3500),('wide',300)], [('main',60000),('simple',20000),('wide',5000)])
+_cluster.make(sys.modules[__name__], 'C05', {'U2','U5','E2E'}, [('main',3500),('wide',300),('nsm',600)], [('nsm',12000),('main',60000),('simple',20000),('wide',5000)])
